@@ -161,9 +161,11 @@ int fb_gen_common_c_builder_header(fb_output_t *out)
         "{ return N ## _add(B, flatcc_builder_create_vector(B, data, size, 1,\\\n"
         "  align ? align : 8, FLATBUFFERS_COUNT_MAX(1))); }\\\n"
         "static inline int N ## _clone_as_root(NS ## builder_t *B, TN ## _table_t t)\\\n"
-        "{ return N ## _add(B, TN ## _clone_as_root(B, t)); }\\\n"
+        "{ return NS ## buffer_start(B, FID) ? -1 :\\\n"
+        "  N ## _add(B, NS ## buffer_end(B, TN ## _clone(B, t))); }\\\n"
         "static inline int N ## _clone_as_typed_root(NS ## builder_t *B, TN ## _table_t t)\\\n"
-        "{ return N ## _add(B, TN ## _clone_as_typed_root(B, t)); }\n"
+        "{ return NS ## buffer_start(B, TFID) ? -1 :\\\n"
+        "  N ## _add(B, NS ## buffer_end(B, TN ## _clone(B, t))); }\n"
         "\n",
         nsc);
 
@@ -192,9 +194,11 @@ int fb_gen_common_c_builder_header(fb_output_t *out)
         "{ return N ## _add(B, flatcc_builder_create_vector(B, data, size, 1,\\\n"
         "  align < A ? A : align, FLATBUFFERS_COUNT_MAX(1))); }\\\n"
         "static inline int N ## _clone_as_root(NS ## builder_t *B, TN ## _struct_t p)\\\n"
-        "{ return N ## _add(B, TN ## _clone_as_root(B, p)); }\\\n"
+        "{ return NS ## buffer_start(B, FID) ? -1 :\\\n"
+        "  N ## _add(B, NS ## buffer_end(B, TN ## _clone(B, p))); }\\\n"
         "static inline int N ## _clone_as_typed_root(NS ## builder_t *B, TN ## _struct_t p)\\\n"
-        "{ return N ## _add(B, TN ## _clone_as_typed_root(B, p)); }\n"
+        "{ return NS ## buffer_start(B, TFID) ? -1 :\\\n"
+        "  N ## _add(B, NS ## buffer_end(B, TN ## _clone(B, p))); }\n"
         "\n",
         nsc);
 
